@@ -2,7 +2,7 @@
 import random
 from .C03 import _rank_profiles, _pick
 
-THOROUGH_SEEDS = 4
+THOROUGH_SEEDS = 6
 
 
 def cases(tier, seed):
@@ -16,10 +16,11 @@ def cases(tier, seed):
     if th:
         mn[2] += [([4, 2], [3, 1]), ([2, 4], [3, 2])]
         mn[3] += [([2, 3, 2], [3, 2, 1]), ([1, 1, 1], [1, 1, 1])]
-        mn[4] = [([2, 1, 2, 1], [1, 2, 1, 2]), ([2, 2, 1, 2], [1, 2, 2, 1])]
+        mn[1] += [([4], [3]), ([3], [4])]
+        mn[4] = [([2, 1, 2, 1], [1, 2, 1, 2]), ([2, 2, 1, 2], [1, 2, 2, 1]), ([1, 2, 2, 2], [2, 2, 1, 1])]
     for d, lst in mn.items():
         ch = [1, 2, 3] if d <= 2 else [1, 2]
-        npick = (4 if d <= 2 else 2) if not th else (9 if d <= 2 else 5)
+        npick = (4 if d <= 2 else 2) if not th else (24 if d <= 2 else 8)
         for M, N in lst:
             profs = _rank_profiles(d, ch)
             pairs = [(a, b) for a in profs for b in profs if a != b or max(a) == 1]
@@ -41,7 +42,7 @@ def cases(tier, seed):
                     continue
                 cs.append({'scen': 'ttm_dense_matvec', 's': {'M': M, 'N': N, 'RA': RA, 'batch': batch, 'dtype': 'float64'}})
     # dtypes
-    for dt in ('complex128', 'float32'):
+    for dt in ('complex128', 'float32') + (('complex64',) if th else ()):
         M, N = [2, 1], [1, 3]
         RA, Rx = [1, 2, 1], [1, 3, 1]
         cs.append({'scen': 'ttm_matvec', 's': {'M': M, 'N': N, 'RA': RA, 'Rx': Rx, 'dtype': dt}})
